@@ -129,11 +129,67 @@ void run_e2e(Toks &tk, std::ostream &os, const std::string &id)
     utils::Report rep;
     bool ok = true;
     int code = 0;
+    // VERIF_REUSE_GEN: the caller's named generator object is handed to a second, otherwise identical call
+    const bool reuse_gen = std::getenv("VERIF_REUSE_GEN") != nullptr;
+    auto labels_in = labels;
+    auto u_in = u;
+    auto v_in = v;
+    auto aff_in = aff;
     try
     {
         utils::RandomGenerator<> rng{(std::time_t)seed};
         rep = multitensor_factorization<direction_t, affinity_t, init_t>(
             starts, ends, weights, r, maxit, nconv, labels, u, v, aff, rng);
+        if (reuse_gen)
+        {
+            H = verif::Hooks{};
+            H.likelihood_computed = [&](size_t iteration, double &L2) {
+                size_t j = iteration / 10;
+                if (cur_real < script.size() && j < script[cur_real].size())
+                    L2 = script[cur_real][j];
+            };
+            H.realization_start = [&](size_t i, const tensor::Matrix<double> &, const tensor::Matrix<double> *,
+                                      const std::vector<double> &) { cur_real = i; };
+            auto labels2 = labels_in;
+            auto u2 = u_in;
+            auto v2 = v_in;
+            auto aff2 = aff_in;
+            utils::Report rep2 = multitensor_factorization<direction_t, affinity_t, init_t>(
+                starts, ends, weights, r, maxit, nconv, labels2, u2, v2, aff2, rng);
+            std::string what;
+            auto same_bits = [](double a, double b) { return std::memcmp(&a, &b, sizeof a) == 0; };
+            auto same_mat = [&](tensor::Matrix<double> &a, tensor::Matrix<double> &b) {
+                if (a.size() != b.size())
+                    return false;
+                if (a.size() == 0)
+                    return true;
+                if (a.dims() != b.dims())
+                    return false;
+                auto d = a.dims();
+                for (size_t i = 0; i < std::get<0>(d); i++)
+                    for (size_t k = 0; k < std::get<1>(d); k++)
+                        if (!same_bits(a(i, k), b(i, k)))
+                            return false;
+                return true;
+            };
+            if (!same_mat(u, u2))
+                what += " u";
+            if (!same_mat(v, v2))
+                what += " v";
+            bool aff_same = aff.size() == aff2.size();
+            for (size_t i = 0; aff_same && i < aff.size(); i++)
+                aff_same = same_bits(aff[i], aff2[i]);
+            if (!aff_same)
+                what += " affinity";
+            if (labels != labels2)
+                what += " labels";
+            bool rep_same = rep.vec_iter == rep2.vec_iter && rep.vec_L2.size() == rep2.vec_L2.size() && rep.seed == rep2.seed;
+            for (size_t i = 0; rep_same && i < rep.vec_L2.size(); i++)
+                rep_same = same_bits(rep.vec_L2[i], rep2.vec_L2[i]) && rep.vec_term_reason[i] == rep2.vec_term_reason[i];
+            if (!rep_same)
+                what += " report";
+            extra_os << id << " @genreuse " << (what.empty() ? "same" : "diff") << what << "\n";
+        }
         if ((long)rep.seed != seed)
             os << id << " SEED-MISMATCH " << rep.seed << "\n";
         if (rep.nof_realizations != r)
